@@ -616,6 +616,8 @@ def _unpack_types(cls):
         return out
     if cls is ShadowFloat:
         return [float]
+    if cls is ShadowInt:
+        return [int]
     return [cls]
 
 
@@ -723,7 +725,22 @@ class ShadowFloat(metaclass=_ShadowFloatMeta):
     pass
 
 
+class _ShadowIntMeta(type):
+    """`int` as seen by patched modules: identity on integer-typed proxies, still a type for `float | int` / isinstance"""
+
+    def __call__(cls, x=0, *a):
+        return sym_int(x) if not a else builtins.int(x, *a)
+
+    def __instancecheck__(cls, obj):
+        return sym_isinstance(obj, builtins.int)
+
+
+class ShadowInt(metaclass=_ShadowIntMeta):
+    pass
+
+
 SHADOW_BUILTINS = {
+    "int": ShadowInt,
     "isinstance": sym_isinstance,
     "abs": sym_abs,
     "float": ShadowFloat,
